@@ -450,6 +450,42 @@ func c17History(c *Ctx, run *ssa.Function) {
 	}
 }
 
+// c17OneItemPerElement: h ranges over its parameter p in order and produces
+// exactly one element of its result per iteration, unconditionally: an append
+// to the result list, or a store at out[i] of a list made with len(p).
+func c17OneItemPerElement(h *ssa.Function, p *ssa.Parameter) bool {
+	var loop *ssau.RangeLoop
+	ls := ssau.RangeLoops(h)
+	for i := range ls {
+		if !ls[i].IsMap && ls[i].Over == ssa.Value(p) {
+			loop = &ls[i]
+		}
+	}
+	if loop == nil || h.Signature.Results().Len() != 1 {
+		return false
+	}
+	resT := h.Signature.Results().At(0).Type().String()
+	eng := pathev.New(func(in ssa.Instruction) []string {
+		switch x := in.(type) {
+		case *ssa.Call:
+			if ssau.CallName(x) == "builtin.append" && x.Type().String() == resT {
+				return []string{"item"}
+			}
+		case *ssa.Store:
+			if ia, ok := x.Addr.(*ssa.IndexAddr); ok && ia.X.Type().String() == resT && ia.Index == loop.Index {
+				if mk, ok := ia.X.(*ssa.MakeSlice); ok {
+					if lc, ok := mk.Len.(*ssa.Call); ok && ssau.CallName(lc) == "builtin.len" && lc.Common().Args[0] == ssa.Value(p) {
+						return []string{"item"}
+					}
+				}
+			}
+		}
+		return nil
+	}, nil)
+	m, early, reach := eng.Between(loop.Body, loop.Header)
+	return reach && len(early) == 0 && m.Get("item").ExactlyOnce()
+}
+
 func c17ExitName(c *Ctx, fn *ssa.Function, ret *ssa.Return) string {
 	// name an exit by the last user-visible call before it (stable across line moves)
 	b := ret.Block()
@@ -603,8 +639,22 @@ func c17Output(c *Ctx, run *ssa.Function) {
 			encodes = append(encodes, call)
 		}
 	})
-	if len(encodes) != 1 || jsonBody == nil {
-		r.Bad("O-3", fk+"#json-encode", c.P.Pos(run.Pos()), fmt.Sprintf("expected exactly one Encoder.Encode in the json branch, found %d", len(encodes)))
+	// the item list may be built by a helper that is handed the result list
+	helperBuilt := false
+	if len(encodes) == 1 && jsonBody == nil {
+		if hc, ok := ssau.Strip(encodes[0].Common().Args[1]).(*ssa.Call); ok {
+			if h := hc.Common().StaticCallee(); h != nil && h.Blocks != nil && h.Pkg != nil && h.Pkg.Pkg.Path() == cliPkg {
+				for pi, a := range hc.Common().Args {
+					if isCellLoad(a) && pi < len(h.Params) && c17OneItemPerElement(h, h.Params[pi]) {
+						helperBuilt = true
+						r.OK("O-3", fk+"#json-one-item-per-result", c.P.Pos(hc.Pos()), "the helper "+h.Name()+" emits exactly one item per result, in order")
+					}
+				}
+			}
+		}
+	}
+	if len(encodes) != 1 || (jsonBody == nil && !helperBuilt) {
+		r.Bad("O-3", fk+"#json-encode", c.P.Pos(run.Pos()), fmt.Sprintf("expected exactly one Encoder.Encode in the json branch fed by a one-item-per-result list, found %d", len(encodes)))
 		return
 	}
 	enc := encodes[0]
@@ -654,6 +704,7 @@ func c17Output(c *Ctx, run *ssa.Function) {
 			}
 		}
 	}
+	built = built || helperBuilt
 	r.Check(built, "O-3", fk+"#json-encode-arg", c.P.Pos(enc.Pos()), "Encode receives the list built from the results", "Encode is not given the list built in the per-result loop")
 	// stdout target
 	toStdout := false
@@ -693,6 +744,170 @@ func isScoreDescComparator(fn *ssa.Function) bool {
 	return (op == token.GTR && xi == i && yi == j) || (op == token.LSS && xi == j && yi == i)
 }
 
+// c17NoColorCell: the local variable of the search command that receives
+// GetBool("no-color").
+func c17NoColorCell(run *ssa.Function) ssa.Value {
+	var cell ssa.Value
+	ssau.ForEachInstr(run, false, func(in ssa.Instruction) {
+		st, ok := in.(*ssa.Store)
+		if !ok {
+			return
+		}
+		if ex, ok := st.Val.(*ssa.Extract); ok {
+			if call, ok := ex.Tuple.(*ssa.Call); ok && strings.HasSuffix(ssau.CallName(call), "FlagSet).GetBool") {
+				if s, _ := ssau.ConstString(call.Common().Args[1]); s == "no-color" {
+					cell = st.Addr
+				}
+			}
+		}
+	})
+	return cell
+}
+
+// c17EscControlled: the instruction that uses an ESC constant runs only when
+// colours are enabled: it is control-dependent on the no-color variable being
+// false (in the search command itself), or on a bool parameter of a helper
+// whose every call site passes the no-color variable (ESC on the false side)
+// or its negation (ESC on the true side).
+func c17EscControlled(c *Ctx, run, fn *ssa.Function, in ssa.Instruction) (bool, string) {
+	nc := c17NoColorCell(run)
+	isNC := func(v ssa.Value) (neg, ok bool) {
+		if u, isU := v.(*ssa.UnOp); isU && u.Op == token.NOT {
+			v, neg = u.X, true
+		}
+		if nc != nil {
+			if _, ok2 := isNCLoad(v, nc); ok2 {
+				return neg, true
+			}
+		}
+		return neg, c17NoColorValue(v, 0)
+	}
+	cd := ssau.ControlDeps(fn)
+	for _, d := range ssau.TransitiveControlDeps(cd, in.Block()) {
+		cond := d.If().Cond
+		if fn == run || fn.Parent() == run {
+			if neg, ok := isNC(cond); ok && d.Then == neg {
+				return true, "runs only when the no-color variable is false"
+			}
+		}
+		p, isP := cond.(*ssa.Parameter)
+		negP := false
+		if u, isU := cond.(*ssa.UnOp); isU && u.Op == token.NOT {
+			p, isP = u.X.(*ssa.Parameter)
+			negP = true
+		}
+		if !isP {
+			continue
+		}
+		// ESC side: the parameter is "disabled" when ESC is on its false side
+		escOnTrue := d.Then != negP
+		idx := -1
+		for i, q := range fn.Params {
+			if q == p {
+				idx = i
+			}
+		}
+		node := c.P.CallGraph().Nodes[fn]
+		if idx < 0 || node == nil || len(node.In) == 0 {
+			continue
+		}
+		all := true
+		for _, e := range node.In {
+			if e.Caller.Func.Synthetic != "" {
+				continue
+			}
+			args := e.Site.Common().Args
+			if idx >= len(args) {
+				all = false
+				break
+			}
+			neg, ok := isNC(args[idx])
+			// ESC on true side needs the argument to be !noColor; on the false side noColor itself
+			if !ok || neg != escOnTrue || !(e.Caller.Func == run || e.Caller.Func.Parent() == run) {
+				all = false
+				break
+			}
+		}
+		if all {
+			return true, "runs only on the colours-enabled side of a parameter that every caller derives from the no-color variable"
+		}
+	}
+	return false, ""
+}
+
+// c17NoColorValue: v is the no-color decision held in a plain value: the
+// result of GetBool("no-color"), or a merge of it with the constant true set
+// under os.LookupEnv("NO_COLOR") reporting the variable present.
+func c17NoColorValue(v ssa.Value, d int) bool {
+	if d > 3 {
+		return false
+	}
+	switch x := v.(type) {
+	case *ssa.Extract:
+		// the flag alone is not the whole decision (NO_COLOR must count too):
+		// accepted only as an input of the merge below
+		if call, ok := x.Tuple.(*ssa.Call); ok && d > 0 && x.Index == 0 && strings.HasSuffix(ssau.CallName(call), "FlagSet).GetBool") {
+			s, _ := ssau.ConstString(call.Common().Args[1])
+			return s == "no-color"
+		}
+	case *ssa.Phi:
+		flag := false
+		nEnv := 0
+		cd := ssau.ControlDeps(x.Parent())
+		for i, e := range x.Edges {
+			if c17NoColorValue(e, d+1) {
+				flag = true
+				continue
+			}
+			if !ssau.IsConstBool(e, true) {
+				return false
+			}
+			// the constant arrives only where NO_COLOR was found in the environment
+			env := false
+			p := x.Block().Preds[i]
+			deps := ssau.TransitiveControlDeps(cd, p)
+			if iff, ok := p.Instrs[len(p.Instrs)-1].(*ssa.If); ok {
+				for k, sc := range p.Succs {
+					if sc == x.Block() {
+						deps = append(deps, ssau.CtrlDep{Branch: iff.Block(), Then: k == 0})
+					}
+				}
+			}
+			for _, dp := range deps {
+				if ex, ok := dp.If().Cond.(*ssa.Extract); ok && ex.Index == 1 && dp.Then {
+					if call, ok := ex.Tuple.(*ssa.Call); ok && ssau.CallName(call) == "os.LookupEnv" {
+						if s, _ := ssau.ConstString(call.Common().Args[0]); s == "NO_COLOR" {
+							env = true
+						}
+					}
+				}
+			}
+			if !env {
+				return false
+			}
+			nEnv++
+		}
+		return flag && nEnv > 0
+	}
+	return false
+}
+
+func isNCLoad(v ssa.Value, nc ssa.Value) (ssa.Value, bool) {
+	u, ok := v.(*ssa.UnOp)
+	if !ok || u.Op != token.MUL {
+		return nil, false
+	}
+	if u.X == nc {
+		return u, true
+	}
+	if fv, ok := u.X.(*ssa.FreeVar); ok {
+		if al, ok := nc.(*ssa.Alloc); ok && strings.HasPrefix(fv.Name(), al.Comment) {
+			return u, true
+		}
+	}
+	return nil, false
+}
+
 func c17Colour(c *Ctx, run *ssa.Function) {
 	r := c.R
 	sp := c.P.SSAPkg("internal/cli")
@@ -725,6 +940,10 @@ func c17Colour(c *Ctx, run *ssa.Function) {
 					}
 				}
 				if gate == nil {
+					if ok, how := c17EscControlled(c, run, fn, in); ok {
+						r.OK("O-4", key, c.P.Pos(in.Pos()), how)
+						continue
+					}
 					r.Bad("O-4", key, c.P.Pos(in.Pos()), "an ESC sequence constant is used outside the colour gate: it is emitted even with --no-color / NO_COLOR")
 					continue
 				}
